@@ -588,7 +588,7 @@ impl<'a> Exec<'a> {
         }
         let lf = data.iter().filter(|&&b| b == b'\n').count();
         let cap = lf + 4;
-        if cap > 400 || data.len() > 300_000 {
+        if (cap > 400 && kind != Kind::Chunk) || data.len() > 300_000 {
             return;
         }
         // long buffers: the search costs 4..162 re-parses of the whole buffer; sample them
